@@ -219,6 +219,16 @@ class T15(Translator2):
         except Untranslatable:
             return node
         alias = {}
+        # an attribute that the function itself stores to (`self.attr = ...`) may be re-bound between the alias and its
+        # use: Python's local would keep the old object, the substituted text would read the new one — no alias then
+        stored_attrs = {n.attr for n in ast.walk(node) if isinstance(n, ast.Attribute) and isinstance(n.ctx, (ast.Store, ast.Del))}
+
+        def chain_attrs(e):
+            out = set()
+            while isinstance(e, ast.Attribute):
+                out.add(e.attr)
+                e = e.value
+            return out
 
         def root(e):
             while isinstance(e, ast.Attribute):
@@ -231,7 +241,7 @@ class T15(Translator2):
                         and isinstance(root(st.value), ast.Name)):
                     x, r = st.targets[0].id, root(st.value).id
                     if stores.get(x, 0) == 1 and x not in params and x not in alias and r not in rebound \
-                            and r not in stores and x != r:
+                            and r not in stores and x != r and not (chain_attrs(st.value) & stored_attrs):
                         alias[x] = st.value
                         return None
                 return self_.generic_visit(st)
